@@ -70,8 +70,12 @@ func rootOf(v ssa.Value) Root {
 		r.path = append(append([]int{}, r.path...), x.Field)
 		return r
 	case *ssa.IndexAddr:
-		if _, ok := x.X.Type().Underlying().(*types.Slice); ok {
-			return Root{kind: "slice", elem: x.X.Type().Underlying().(*types.Slice).Elem(), val: x.X}
+		if sl, ok := x.X.Type().Underlying().(*types.Slice); ok {
+			if r, ok := sliceRoot(x.X); ok {
+				r.elem = sl.Elem()
+				return r
+			}
+			return Root{kind: "slice", elem: sl.Elem(), val: x.X}
 		}
 		r := rootOf(x.X)
 		if r.kind == "unknown" || r.kind == "slice" {
@@ -98,6 +102,33 @@ func rootOf(v ssa.Value) Root {
 	return Root{kind: "unknown", val: v}
 }
 
+// sliceRoot resolves a slice value to the addressable array it was carved from, or to the slice parameter it is.
+func sliceRoot(v ssa.Value) (Root, bool) {
+	switch x := v.(type) {
+	case *ssa.Slice:
+		if _, isPtr := x.X.Type().Underlying().(*types.Pointer); isPtr {
+			r := rootOf(x.X)
+			if r.kind == "unknown" || r.kind == "slice" {
+				return r, false
+			}
+			if len(r.path) == 0 || r.path[len(r.path)-1] != -1 {
+				r.path = append(append([]int{}, r.path...), -1)
+			}
+			return r, true
+		}
+		return sliceRoot(x.X)
+	case *ssa.ChangeType:
+		return sliceRoot(x.X)
+	case *ssa.Parameter:
+		for i, p := range x.Parent().Params {
+			if p == x {
+				return Root{kind: "param", index: i, val: v, path: []int{-3}}, true
+			}
+		}
+	}
+	return Root{}, false
+}
+
 // Effects summarises what a function may write.
 type Effects struct {
 	Roots   map[string]Root // written roots (param/freevar/global/alloc-escaping), by String()
@@ -114,6 +145,11 @@ func newEffects() *Effects {
 }
 
 func (e *Effects) addRoot(r Root) {
+	if len(r.path) > 0 && r.path[0] == -3 && r.elem != nil && r.kind == "param" {
+		// elements of a slice parameter: kept symbolic for callers (mapCallee), whole memory otherwise
+		e.Roots[r.String()] = r
+		return
+	}
 	switch r.kind {
 	case "unknown":
 		e.Unknown = append(e.Unknown, "store through unresolved pointer "+r.val.Name())
@@ -191,6 +227,19 @@ func (eng *Engine) scanCall(fn *ssa.Function, ci ssa.CallInstruction, e *Effects
 		eng.mapCallee(callee.Fn.(*ssa.Function), c.Args, callee.Bindings, e)
 		return
 	}
+	if fc := eng.functypeContract(c.Value.Type()); fc != nil {
+		// callback with a contract: its calls are events; it writes only what the contract lists
+		if !fc.Pure {
+			e.Ifaces[ifaceShort(c.Value.Type())] = true
+		}
+		for _, m := range fc.Modifies {
+			var k int
+			if n, _ := fmt.Sscanf(m, "*arg%d", &k); n == 1 && k < len(c.Args) {
+				e.addRoot(rootOf(c.Args[k]))
+			}
+		}
+		return
+	}
 	// dynamic call through a function value: all address-taken functions of that signature
 	cands := eng.candidates(c.Value.Type())
 	if len(cands) == 0 {
@@ -246,6 +295,19 @@ func (eng *Engine) mapCallee(callee *ssa.Function, args []ssa.Value, bindings []
 		case "global":
 			e.Roots[r.String()] = r
 		case "param":
+			if len(r.path) > 0 && r.path[0] == -3 {
+				if r.index < len(args) {
+					if ar, ok := sliceRoot(args[r.index]); ok {
+						ar.elem = r.elem
+						e.addRoot(ar)
+						continue
+					}
+				}
+				if r.elem != nil {
+					e.Mems[r.elem.String()] = r.elem
+				}
+				continue
+			}
 			if r.index < len(args) {
 				ar := rootOf(args[r.index])
 				if ar.kind != "unknown" && ar.kind != "slice" {
